@@ -1208,6 +1208,9 @@ pub mod verif_hooks {
 
     // ---- port events -------------------------------------------------------
 
+    /// Nameable alias of the crate-private port event type.
+    pub type VPortEvt = PortEvt;
+
     pub enum PortEvtView {
         Accepted { local_port: PortNumber, remote_port: u32, port_tx: oneshot::Sender<(Sender, Receiver)> },
         Rejected { remote_port: u32, no_ports: bool },
